@@ -25,7 +25,7 @@ EXTENDS Naturals, Sequences, FiniteSets, TLC
 
 CONSTANTS MimePolicy, MaxOps
 
-Names  == {"a", "d/b"}
+Names  == {"a", "d/b.x", "d/b.y"}     \* two names that differ only in their last extension
 Key    == "k"
 Chunks == {<<0, 2, 0, 2, 0, 1>>, <<2, 3, 0, 2, 0, 1>>}
 Data   == {0, 1, 2}                  \* abstract payloads; 0 is the empty byte string
